@@ -274,3 +274,298 @@ Example C15_example_poison_is_modelled :
   map (map (fun x => match snd x with Panic t => Some t | _ => None end)) (run [0; 0; 0; 1; 1; 1])%nat
   = [[Some "Failed to generate operands out of FluentNumber"%string]; [Some "PoisonError"%string]].
 Proof. vm_compute. split; reflexivity. Qed.
+
+(* ================================================================================================================
+   LOCK GRANULARITY — the atomicity of a memoizer access is a THEOREM, not a modelling decision.
+
+   Above, one `with_try_get_threadsafe::<PluralRules>` call (types/mod.rs:207-210 -> fluent-bundle concurrent.rs:61 ->
+   intl-memoizer concurrent.rs:25-45) is ONE step of the scheduler.  Bundle/ConcurrentBundleFine.v drops that: the
+   Mutex is explicit (`fb_holder`) and the call is executed as the micro-steps of Memo/FineGrained.v (the C14 fine-grained
+   model of intl-memoizer concurrent.rs with_try_get), between any two of which any other thread may be scheduled:
+
+       Lock        concurrent.rs:32  self.map.lock().unwrap()          the ONLY step that looks at the mutex; blocks if held;
+                                                                        on a poisoned mutex: guard taken, unwrap panics
+       LookupType  concurrent.rs:33  map.entry::<HashMap<..>>().or_insert_with(HashMap::new)
+       LookupArgs  concurrent.rs:37  match cache.entry(args.clone())
+       Construct   concurrent.rs:40  I::construct(self.lang.clone(), args)?          (only on Vacant)
+       Insert      concurrent.rs:41  entry.insert(val)                              (only on Vacant, construct Ok)
+       Callback    concurrent.rs:44  Ok(cb(e))    = |pr| pr.0.select(b) == Ok(cat)   types/mod.rs:207-209
+       Unlock      concurrent.rs:45  `}` drops the guard (poisons if the callback panicked); then types/mod.rs:210 .unwrap()
+
+   The other steps of a thread (begin a format_pattern call, return from it; all resolver work between two accesses is
+   folded into the call's continuation) are thread-local and take no lock: they touch only the Scope, the error vector and the
+   output of the call (created per call by bundle.rs format_pattern), and read the bundle, which is behind `&` and never written.
+   A fine schedule is ANY list of thread ids; `fb_run programs fs` is the state after it; `commit_order (fb_init programs) fs`
+   is the schedule of the atomic model it induces: its thread-local steps and its SUCCESSFUL Locks, in the order they happened.
+   Still outside the model: std::sync::Mutex itself (taken as: lock() succeeds iff nobody holds it), a user callback that
+   re-enters the memoizer, weak-memory effects (the mutex's acquire/release ordering makes the map accesses sequentially
+   consistent).
+   ================================================================================================================ *)
+From FluentV Require Import Bundle.ConcurrentBundleFine Bundle.ConcurrentBundleFineProofs.
+From FluentV Require Memo.FineGrained Memo.FineGrainedProofs.
+
+Section C15Fine.
+Variable overflow_checks : bool.
+Variable call_function : bytes -> list fvalue -> fargs -> fvalue.
+Variable transform : option (bytes -> bytes).
+Variable formatter : option (fvalue -> option bytes).
+Variable as_string : bytes -> bytes.
+Variable as_string_threadsafe : bytes -> bytes.
+Variable unescape_write : bytes -> bytes.
+Variable unescape_to_string : bytes -> bytes.
+Variable f64_from_str : bytes -> option fval.
+Variable cerr : Type.
+Variable plural_construct : Memoizer.lang -> ntype -> Memoizer.result rules_fn cerr.
+Variable b : bundle.
+Variable lang : Memoizer.lang.
+Variable rules : ntype -> rules_fn.
+
+Notation run_schedule := (run_schedule overflow_checks call_function transform formatter as_string as_string_threadsafe
+                            unescape_write unescape_to_string f64_from_str cerr plural_construct b lang).
+Notation sched_step := (sched_step overflow_checks call_function transform formatter as_string as_string_threadsafe
+                          unescape_write unescape_to_string f64_from_str cerr plural_construct b).
+Notation fb_step := (fb_step overflow_checks call_function transform formatter as_string as_string_threadsafe
+                       unescape_write unescape_to_string f64_from_str cerr plural_construct b).
+Notation fb_run_from := (fb_run_from overflow_checks call_function transform formatter as_string as_string_threadsafe
+                           unescape_write unescape_to_string f64_from_str cerr plural_construct b).
+Notation fb_run := (fb_run overflow_checks call_function transform formatter as_string as_string_threadsafe
+                      unescape_write unescape_to_string f64_from_str cerr plural_construct b lang).
+Notation fb_enabled := (fb_enabled overflow_checks call_function transform formatter as_string as_string_threadsafe
+                          unescape_write unescape_to_string f64_from_str cerr b).
+Notation commit_order := (commit_order overflow_checks call_function transform formatter as_string as_string_threadsafe
+                            unescape_write unescape_to_string f64_from_str cerr plural_construct b).
+Notation fb_weight := (fb_weight overflow_checks call_function transform formatter as_string as_string_threadsafe
+                         unescape_write unescape_to_string f64_from_str cerr b).
+Notation FMutex := (FMutex cerr).
+Notation fb_init := (fb_init cerr lang).
+Notation fb_proj := (fb_proj cerr).
+Notation fb_abs := (fb_abs cerr plural_construct).
+Notation fb_finished := (fb_finished cerr).
+Notation fb_results := (fb_results cerr).
+Notation fb_memo := (fb_memo cerr).
+Notation fb_holder := (fb_holder cerr).
+Notation fb_threads := (fb_threads cerr).
+Notation ct_th := (ct_th cerr).
+Notation ct_pc := (ct_pc cerr).
+Notation in_cs := (FineGrained.in_cs rules_fn cerr (outcome bool)).
+Notation format := (format_pattern overflow_checks call_function transform formatter rules as_string_threadsafe
+                      unescape_write unescape_to_string f64_from_str b).
+
+(* MUTUAL EXCLUSION (what `Mutex` is for), in every state of every fine schedule: the mutex is held exactly by the thread that
+   is between Lock (concurrent.rs:32) and Unlock (concurrent.rs:45) of a memoizer access — `in_cs (ct_pc ct)` —; that thread is
+   at a memoizer access of its current call; no two threads are inside at once.  Nothing in the step function enforces this:
+   only Lock looks at `fb_holder`. *)
+Theorem C15_fine_grained_mutex :
+  forall programs fs,
+    let st := fb_run programs fs in
+    FMutex st /\
+    forall t1 t2 c1 c2,
+      nth_error (fb_threads st) t1 = Some c1 -> in_cs (ct_pc c1) = true ->
+      nth_error (fb_threads st) t2 = Some c2 -> in_cs (ct_pc c2) = true -> t1 = t2.
+Proof.
+  intros programs fs st.
+  pose proof (fb_mutex overflow_checks call_function transform formatter as_string as_string_threadsafe unescape_write
+                unescape_to_string f64_from_str cerr plural_construct b lang programs fs) as HM.
+  split; [exact HM|]. intros t1 t2 c1 c2. apply (fmutex_exclusive cerr); exact HM.
+Qed.
+
+(* "whatever the interleaving": REDUCTION of every fine schedule to a schedule of the atomic model (the one all theorems
+   above are about).  For ANY programs and ANY fine schedule fs, with cs := commit_order (fb_init programs) fs:
+   (1) at EVERY point, the state in which the thread inside the critical section (if any) has finished it (`fb_abs`) is the
+       state of the atomic model after cs;
+   (2) at every QUIESCENT point (nobody holds the mutex) the observable state itself — the memoizer: table, construct
+       counter, construct log, poison flag; every thread: call in progress, requests still to issue, finished calls with
+       their results (texts, error lists) — IS the state of the atomic model after cs;
+   (3) at EVERY point, also in the middle of a critical section, every thread's finished calls and their results are those
+       of the atomic model after cs;
+   (4) when every thread has finished, nobody holds the mutex, (2) applies, the atomic run has finished too, and every
+       request of every thread has been answered, in order. *)
+Theorem C15_fine_grained_reduces_to_atomic :
+  forall programs fs,
+    let st := fb_run programs fs in
+    let cs := commit_order (fb_init programs) fs in
+    fb_abs st = run_schedule programs cs /\
+    (fb_holder st = None -> fb_proj st = run_schedule programs cs) /\
+    fb_results st = results_of (run_schedule programs cs) /\
+    (fb_finished st = true ->
+       fb_holder st = None /\ fb_proj st = run_schedule programs cs /\ finished (run_schedule programs cs) = true /\
+       forall tid ct, nth_error (fb_threads st) tid = Some ct -> nth_error programs tid = Some (map fst (t_done (ct_th ct)))).
+Proof.
+  intros programs fs st cs.
+  split; [apply fb_reduction_abs|]. split; [apply fb_reduction|]. split; [apply fb_results_atomic|].
+  apply fb_reduction_finished.
+Qed.
+
+(* one access is the atomic step (concurrent.rs:32-45 = Memoizer.with_try_get under the guard): from any reachable-like state
+   (mutual exclusion holds) with the mutex free, a thread at a memoizer access scheduled alone is back outside after 2..7
+   micro-steps, exactly one of which (the Lock) counts in commit_order, and the observable effect is ONE sched_step of the
+   atomic model, i.e. ConcurrentBundle.memo_step on the shared memoizer *)
+Theorem C15_fine_grained_access_is_atomic_step :
+  forall st tid ct rq ty num cat k,
+    FMutex st -> fb_holder st = None ->
+    nth_error (fb_threads st) tid = Some ct -> t_cur (ct_th ct) = Some (rq, PAsk ty num cat k) ->
+    exists j, 2 <= j <= 7 /\ fb_holder (fb_run_from st (repeat tid j)) = None /\
+              commit_order st (repeat tid j) = [tid] /\
+              fb_proj (fb_run_from st (repeat tid j)) = sched_step (fb_proj st) tid.
+Proof.
+  exact (fb_access_is_memo_step overflow_checks call_function transform formatter as_string as_string_threadsafe unescape_write
+           unescape_to_string f64_from_str cerr plural_construct b).
+Qed.
+
+(* conversely the fine model loses no behaviour: every schedule of the atomic model is the observable outcome of some fine
+   schedule (so the reduction is onto, and the exhaustive explorations above are explorations of fine outcomes too) *)
+Theorem C15_fine_grained_realizes_atomic :
+  forall programs cs, exists fs, fb_holder (fb_run programs fs) = None /\ fb_proj (fb_run programs fs) = run_schedule programs cs.
+Proof.
+  exact (fb_realizes overflow_checks call_function transform formatter as_string as_string_threadsafe unescape_write
+           unescape_to_string f64_from_str cerr plural_construct b lang).
+Qed.
+
+(* "every formatting request returns the same text and errors as the same request made alone on a single-threaded bundle,
+   whatever the interleaving" — now for every FINE schedule, at EVERY point of it (also while some thread is between Lock and
+   Unlock): (1) program order; (2) the mutex is not poisoned; (3) every finished call returned Done (text, scope) — no Panic,
+   no OutOfFuel — and that pair is what ResolverModel.format_pattern returns single-threadedly for the same request from ANY
+   memoizer content c satisfying the memoizer invariant (cold: c = []), up to the memoizer field of the final scope: same
+   text, same error list, same function-call log.  By C15_schedule_indep composed with C15_fine_grained_reduces_to_atomic;
+   hypotheses as there. *)
+Theorem C15_fine_grained_schedule_independent :
+  forall programs fs,
+    values_are_f64 call_function f64_from_str programs -> constructs_rules cerr plural_construct lang rules ->
+    let st := fb_run programs fs in
+    map thread_reqs (map ct_th (fb_threads st)) = programs /\
+    m_poisoned (fb_memo st) = false /\
+    forall tid ct rq r,
+      nth_error (fb_threads st) tid = Some ct -> In (rq, r) (t_done (ct_th ct)) ->
+      (exists text sc, r = Done (text, sc)) /\
+      forall c, cache_ok rules c ->
+        r = observe_f (format (fr_args rq) (fuel_of b (fr_pattern rq)) (fr_top rq) (fr_pattern rq) c).
+Proof.
+  intros programs fs Hv Hc.
+  exact (fb_sched_indep overflow_checks call_function transform formatter as_string as_string_threadsafe unescape_write
+           unescape_to_string f64_from_str cerr plural_construct b lang rules Hc programs fs Hv).
+Qed.
+
+(* "including simultaneous first uses of a plural-rule formatter (cold cache)", for every fine schedule and with NO assumption
+   on PluralRules::construct (it may fail).  At EVERY point (also inside a critical section, e.g. between Construct
+   concurrent.rs:40 and Insert concurrent.rs:41 of one thread while others wait in lock() concurrent.rs:32):
+   (1) the construct log holds at most one successful construction per key;
+   (2) every construct call was made with the memoizer's language, for a PluralRules key, and succeeded iff construct does;
+   and at every quiescent unpoisoned point, (3) whichever thread stands at a memoizer access for rule type ty: scheduled
+   alone it is outside again after 2..7 micro-steps and continues its call with the callback's value on THE instance
+   construct returns for (lang, ty) — found in the table if some thread constructed it before, otherwise constructed by
+   these micro-steps, exactly once — or, if construct fails, with the unwrap panic (types/mod.rs:210). *)
+Theorem C15_fine_grained_cold_cache :
+  forall programs fs,
+    let st := fb_run programs fs in
+    (forall k, length (filter (MemoProofs.c_is_succ k) (m_trace (fb_memo st))) <= 1) /\
+    (forall e, In e (m_trace (fb_memo st)) ->
+       Memoizer.ev_lang e = lang /\ Memoizer.ev_type e = PLURAL_RULES /\
+       exists ty, Memoizer.ev_args e = args_of ty /\
+                  Memoizer.ev_ok e = match plural_construct lang ty with Memoizer.Ok _ => true | Memoizer.Err _ => false end) /\
+    (forall tid ct rq ty num cat k,
+       fb_holder st = None -> m_poisoned (fb_memo st) = false ->
+       nth_error (fb_threads st) tid = Some ct -> t_cur (ct_th ct) = Some (rq, PAsk ty num cat k) ->
+       exists j, 2 <= j <= 7 /\
+         let st' := fb_run programs (fs ++ repeat tid j) in
+         fb_holder st' = None /\
+         map ct_th (fb_threads st') =
+           Memoizer.set_nth tid
+             (Thread (Some (rq, resume k (match plural_construct lang ty with
+                                          | Memoizer.Ok i => select_callback num cat i
+                                          | Memoizer.Err _ => unwrap_panic
+                                          end))) (t_todo (ct_th ct)) (t_done (ct_th ct)))
+             (map ct_th (fb_threads st)) /\
+         (forall i, plural_construct lang ty = Memoizer.Ok i ->
+                    length (filter (MemoProofs.c_is_succ (PLURAL_RULES, args_of ty)) (m_trace (fb_memo st'))) = 1) /\
+         (forall i, Memoizer.tfind rules_fn (PLURAL_RULES, args_of ty) (Memoizer.lm_table rules_fn (m_lm (fb_memo st))) = Some i ->
+                    m_trace (fb_memo st') = m_trace (fb_memo st))).
+Proof.
+  exact (fb_cold_cache overflow_checks call_function transform formatter as_string as_string_threadsafe unescape_write
+           unescape_to_string f64_from_str cerr plural_construct b lang).
+Qed.
+
+(* "no request deadlocks", with the lock explicit.  In the state reached by ANY fine schedule:
+   (1) a thread that cannot move (`fb_enabled` false: finished, absent, or waiting in lock() concurrent.rs:32 for a held mutex)
+       is not moved by being scheduled;
+   (2) THE HOLDER NEVER WAITS AND THE LOCK IS ALWAYS RELEASED: whoever holds the mutex can move, and scheduled alone has
+       dropped the guard (concurrent.rs:45) after at most 6 of its own steps — between Lock and Unlock it takes no lock and
+       waits for no thread (construct and `pr.select(n) == cat` are not processes: they cannot come back to the memoizer);
+   (3) if nobody holds the mutex, EVERY thread that has not finished can move;
+   (4) every step of a thread that can move lowers fb_weight (7 per atomic step still ahead along the longest branch of each
+       pending call, minus the micro-steps already made of the access in flight);
+   (5) hence unless all threads have finished some thread can move, and
+   (6) the schedule can be extended to one that finishes every thread, with at most fb_weight further steps. *)
+Theorem C15_fine_grained_no_deadlock :
+  forall programs fs,
+    let st := fb_run programs fs in
+    (forall tid, fb_enabled st tid = false -> fb_step st tid = st) /\
+    (forall h, fb_holder st = Some h ->
+       fb_enabled st h = true /\
+       exists j, 1 <= j <= 6 /\ fb_holder (fb_run programs (fs ++ repeat h j)) = None) /\
+    (fb_holder st = None -> forall tid ct, nth_error (fb_threads st) tid = Some ct -> thread_finished (ct_th ct) = false ->
+       fb_enabled st tid = true) /\
+    (forall tid, fb_enabled st tid = true -> fb_weight (fb_step st tid) < fb_weight st) /\
+    (fb_finished st = false -> exists tid, fb_enabled st tid = true) /\
+    exists fs', length fs' <= fb_weight st /\ fb_finished (fb_run programs (fs ++ fs')) = true.
+Proof.
+  exact (fb_no_deadlock overflow_checks call_function transform formatter as_string as_string_threadsafe unescape_write
+           unescape_to_string f64_from_str cerr plural_construct b lang).
+Qed.
+
+End C15Fine.
+
+(* non-vacuity: three threads issue the SAME plural select on a cold cache.  All begin their call; thread 1 wins the mutex;
+   threads 0 and 2 are scheduled five times while it is inside (no-ops: blocked in lock()); thread 1 misses, constructs, inserts,
+   runs its callback, unlocks; thread 2 gets the mutex next (thread 0 blocked once more), hits; then thread 0, hits; all return.
+   One construction (call number 0, successful, language en, cardinal); every thread gets the single-threaded answer
+   "one <ts:x>" with no errors (C15_example_sequential); the induced atomic schedule is [0;1;2; 1;2;0; 0;1;2] and the final
+   state is the atomic model's under it. *)
+Example C15_example_fine_grained :
+  let programs := [[ex_rq (num "1" Cardinal)]; [ex_rq (num "1" Cardinal)]; [ex_rq (num "1" Cardinal)]] in
+  let fs := [0; 1; 2;  1; 0; 1; 2; 1; 0; 1; 1; 2; 1; 1;  2; 0; 2; 2; 2; 2;  0; 0; 0; 0; 0;  0; 1; 2]%nat in
+  let L := fun m => Some (FMicro m) in
+  let st := fb_run true ex_call None None ex_nts ex_ts ex_id ex_id f64_from_str_exact unit ex_construct ex_b ex_lang programs fs in
+  fb_actions true ex_call None None ex_nts ex_ts ex_id ex_id f64_from_str_exact unit ex_construct ex_b (fb_init unit ex_lang programs) fs
+  = [(0, Some FBegin); (1, Some FBegin); (2, Some FBegin);
+     (1, L FineGrained.MLock); (0, None); (1, L FineGrained.MLookupType); (2, None); (1, L FineGrained.MLookupArgs); (0, None);
+     (1, L FineGrained.MConstruct); (1, L FineGrained.MInsert); (2, None); (1, L FineGrained.MCallback); (1, L FineGrained.MUnlock);
+     (2, L FineGrained.MLock); (0, None); (2, L FineGrained.MLookupType); (2, L FineGrained.MLookupArgs);
+     (2, L FineGrained.MCallback); (2, L FineGrained.MUnlock);
+     (0, L FineGrained.MLock); (0, L FineGrained.MLookupType); (0, L FineGrained.MLookupArgs);
+     (0, L FineGrained.MCallback); (0, L FineGrained.MUnlock);
+     (0, Some FReturn); (1, Some FReturn); (2, Some FReturn)]%nat /\
+  commit_order true ex_call None None ex_nts ex_ts ex_id ex_id f64_from_str_exact unit ex_construct ex_b (fb_init unit ex_lang programs) fs
+  = [0; 1; 2; 1; 2; 0; 0; 1; 2]%nat /\
+  fb_finished unit st = true /\ fb_holder unit st = None /\
+  fb_proj unit st = run_schedule true ex_call None None ex_nts ex_ts ex_id ex_id f64_from_str_exact unit ex_construct ex_b ex_lang
+                      programs [0; 1; 2; 1; 2; 0; 0; 1; 2]%nat /\
+  texts (fb_results unit st) = [[Some (s "one <ts:x>", [])]; [Some (s "one <ts:x>", [])]; [Some (s "one <ts:x>", [])]] /\
+  m_trace (fb_memo unit st) = [Memoizer.mk_cevent ex_lang PLURAL_RULES (args_of Cardinal) 0 true].
+Proof. vm_compute. repeat split. Qed.
+
+(* poisoning happens where std says it does: thread 0's callback panics under the guard (Callback leaves PRet (Ok (Panic _))), its
+   Unlock — the guard dropped by the unwinding — sets the poison flag; thread 1, blocked in lock() meanwhile, then acquires the
+   poisoned mutex, `lock().unwrap()` panics, its next step drops the guard again.  Same results as the atomic model
+   (C15_example_poison_is_modelled, schedule [0;0;0;1;1;1]). *)
+Example C15_example_fine_grained_poison :
+  let programs := [[ex_rq ex_bad]; [ex_rq (num "1" Cardinal)]] in
+  let fs := [0; 0; 1; 1;  0; 0; 0; 0; 0;  1;  0;  1; 1;  0; 1]%nat in
+  let L := fun m => Some (FMicro m) in
+  let st := fb_run true ex_call None None ex_nts ex_ts ex_id ex_id f64_from_str_exact unit ex_construct ex_b ex_lang programs fs in
+  map snd (fb_actions true ex_call None None ex_nts ex_ts ex_id ex_id f64_from_str_exact unit ex_construct ex_b
+             (fb_init unit ex_lang programs) fs)
+  = [Some FBegin; L FineGrained.MLock; Some FBegin; None;
+     L FineGrained.MLookupType; L FineGrained.MLookupArgs; L FineGrained.MConstruct; L FineGrained.MInsert; L FineGrained.MCallback;
+     None; L FineGrained.MUnlock;  L FineGrained.MLock; L FineGrained.MUnlock;  Some FReturn; Some FReturn] /\
+  fb_finished unit st = true /\ fb_holder unit st = None /\ m_poisoned (fb_memo unit st) = true /\
+  map (map (fun x => match snd x with Panic t => Some t | _ => None end)) (fb_results unit st)
+  = [[Some "Failed to generate operands out of FluentNumber"%string]; [Some "PoisonError"%string]].
+Proof. vm_compute. repeat split. Qed.
+
+Print Assumptions C15_fine_grained_mutex.
+Print Assumptions C15_fine_grained_reduces_to_atomic.
+Print Assumptions C15_fine_grained_access_is_atomic_step.
+Print Assumptions C15_fine_grained_realizes_atomic.
+Print Assumptions C15_fine_grained_schedule_independent.
+Print Assumptions C15_fine_grained_cold_cache.
+Print Assumptions C15_fine_grained_no_deadlock.
